@@ -14,8 +14,9 @@
                                     treeStorage.Set(tree)   -- there is NO closed flag in the overlay
      treestorage.go Remove(id)    : Lock; if closed return; if cancellations[id] exists return;
                                     wg.Add(1); c := make(chan); cancellations[id] = c;
-                                    go { defer wg.Done(); select { <-timer.C: Lock; delete(trees,id);
-                                         delete(cancellations,id); Unlock   |   <-c: return } }; Unlock
+                                    go { defer wg.Done(); select { <-timer.C: Lock; if cancellations[id] == c {
+                                         delete(trees,id); delete(cancellations,id) }; Unlock
+                                         |   <-c: return } }; Unlock
                  cancelDeletion   : (caller holds the lock) close(cancellations[id]); delete it
                  Close            : Lock; closed = true; close and delete every cancellation;
                                     wg.Wait(); Unlock          <- waits while HOLDING the lock
@@ -191,7 +192,12 @@ Definition cstep (fx_ts fx_ov : bool) (s : cstate) (a : caction) : option cstate
       match nth_error (timers s) j with
       | Some t => match tst t with
                   | TFired => if ts_lock s then None                      (* blocked in ts.Lock() *)
-                              else Some (timer_exit s j t (drop_pending (pending s) (ttree t)))
+                              else Some (timer_exit s j t
+                                           (* the entry is dropped only if it is still this goroutine's channel *)
+                                           (match pending_of (pending s) (ttree t) with
+                                            | Some j' => if j' =? j then drop_pending (pending s) (ttree t) else pending s
+                                            | None => pending s
+                                            end))
                   | _ => None
                   end
       | None => None
